@@ -62,9 +62,20 @@ fn run_guarded(case: Sexp) -> String {
     let r = run_protected(&case);
     let _ = tx.send(r);
   });
-  match rx.recv_timeout(std::time::Duration::from_millis(400)) {
+  // A loaded machine can starve a healthy case for a long time: after the first short wait keep
+  // waiting (long for the first few suspects, shorter once hangs have been confirmed in this run).
+  use std::sync::atomic::{AtomicUsize, Ordering};
+  static CONFIRMED: AtomicUsize = AtomicUsize::new(0);
+  if let Ok(r) = rx.recv_timeout(std::time::Duration::from_millis(400)) {
+    return r;
+  }
+  let extra = if CONFIRMED.load(Ordering::SeqCst) < 4 { 20_000 } else { 3_000 };
+  match rx.recv_timeout(std::time::Duration::from_millis(extra)) {
     Ok(r) => r,
-    Err(_) => "HANG".to_string(),
+    Err(_) => {
+      CONFIRMED.fetch_add(1, Ordering::SeqCst);
+      "HANG".to_string()
+    }
   }
 }
 
